@@ -35,7 +35,7 @@ def main():
                 "design_ref": c.get("design_ref", "DESIGN.md §4 " + pid),
             },
             "level_note": c["note"],
-            "technique": c["technique"] + "; plus the table-driven generic rules of DESIGN.md §6.2 scoped to this property (frozen write paths, monotone failure conditions, monotone write guards and success conditions, always-made writes not bypassed, frozen field writes, write-site arguments, return values, leaf-helper terms, codec calls and literal cases, lost receiver writes, discarded errors)",
+            "technique": c["technique"] + "; plus the table-driven generic rules of DESIGN.md §6.2 scoped to this property (frozen write paths, no new causes of refusal or panic (RFG1/RPN1), monotone write guards and success conditions, always-made writes not bypassed, frozen field writes, write-site arguments, return values, leaf-helper terms, codec calls and literal cases, lost receiver writes, discarded errors)",
         })
     m = {
         "version": 1,
